@@ -67,6 +67,18 @@ def one(ctx: Ctx, spec, dtype, m, exhaustive):
             if wm is None or all(v == 0 for v in wm) or sum(abs(v) for v in wm) > 50:
                 ctx.count("skipped_low_margin", "IMTLG: weights sum near zero")     # discontinuity of v / sum(v), §4.2
                 return
+    elif spec.name == "MGDA" and m >= 3 and rng.random() < 0.6:
+        # conflicting rows of which two or more have EXACTLY the same (smallest) norm — rows that are signed permutations of
+        # each other; not a tie of the algorithm's scores (its start is the barycentre), so the order must not matter
+        base = rng.sample([1, 2, 3, 5, 7], 3)
+        n = 3
+        J = []
+        for i in range(m):
+            pr = rng.sample(range(3), 3)
+            J.append([Fr(rng.choice([-1, 1]) * base[pr[c]]) for c in range(3)])
+        if rng.random() < 0.5:
+            J[-1] = [v * 3 for v in J[-1]]
+        ctx.count("family", "MGDA:equal-norm-rows")
     elif spec.pinv or spec.solver or spec.ties or spec.threshold:
         J = well_conditioned(rng, m, n)
     else:
@@ -88,8 +100,17 @@ def one(ctx: Ctx, spec, dtype, m, exhaustive):
             pv = rng.sample([-3, -2, -1, 1, 2, 3, 4, 5], m)
         else:
             pv = rng.sample([1, 2, 3, 4, 5, 6], m)
+            if rng.random() < 0.3:
+                pv[rng.randrange(m)] = 0          # an objective with zero preference (first, last or in between)
     seed = rng.randrange(10 ** 6)
     A = spec.make(m, dtype, pv)
+    int_pref = spec.name in ("UPGrad", "DualProj") and pv is not None and rng.random() < 0.4   # (they convert the preference themselves)
+    if int_pref:
+        # the preference vector handed over as an INTEGER tensor (small integers are exact in every dtype)
+        cls = type(A)
+        mk_int = lambda q: cls(pref_vector=torch.tensor([int(v) for v in q], dtype=torch.int64))      # noqa: E731
+        A = mk_int(pv)
+        ctx.count("family", "integer-preference-tensor")
     if spec.name == "MGDA" and mgda_margin(Jt) < (1e-3 if dtype == torch.float32 else 1e-7):
         ctx.count("skipped_low_margin", "MGDA")       # a near-tie in some iteration: the path may depend on the row order
         return
@@ -105,6 +126,8 @@ def one(ctx: Ctx, spec, dtype, m, exhaustive):
     for p in perms:
         p = list(p)
         Ap = spec.make(m, dtype, None if pv is None else [pv[i] for i in p])
+        if int_pref:
+            Ap = mk_int([pv[i] for i in p])
         stp, y = attempt(Ap, Jt[p], seed)
         ctx.count("permutations_checked", spec.name)
         if stp != "ok" or relerr(x, y) > tol:
